@@ -1,1 +1,105 @@
-(* to be filled *)
+(* C17, link level - what the linker does with the asserts, the required symbols and _gp.
+   Only statements, each closed by [exact]; see Proofs/C17Link.v.  For every previous-pass environment
+   [env]/[senv], object symbols [ext], kind of pass [final] and state. *)
+From Slinky Require Import Model.Types Model.Runtime Model.Style Model.Script Model.Writer Model.LdSem.
+From Slinky Require Import Spec.C17 Spec.C04 Proofs.C17Link.
+From Coq Require Import ZArith.
+Local Open Scope string_scope.
+Local Open Scope Z_scope.
+
+(* C17_assert_link: ASSERT(cond, msg) reports msg when cond evaluates to 0, nothing when it evaluates
+   to another value, and msg is reported only in the first case *)
+Theorem C17_assert_fails : forall env senv ext final st cond msg,
+  eval_raw env ext st cond = Ok 0 ->
+  exec_top_stmt env senv ext final st (SAssert cond msg) = add_err (LAssertFailed msg) st.
+Proof. exact assert_fails. Qed.
+
+Theorem C17_assert_holds : forall env senv ext final st cond msg v,
+  eval_raw env ext st cond = Ok v -> v <> 0 ->
+  exec_top_stmt env senv ext final st (SAssert cond msg) = st.
+Proof. exact assert_holds. Qed.
+
+Theorem C17_assert_link : forall env senv ext final st cond msg,
+  l_errors (exec_top_stmt env senv ext final st (SAssert cond msg)) = (l_errors st ++ [LAssertFailed msg])%list <->
+  eval_raw env ext st cond = Ok 0.
+Proof. exact assert_iff. Qed.
+
+(* C17_required_link: DEFINED(n) is 1 iff n is defined by the script so far, the previous pass or the
+   objects; so the link fails with "Required symbol 'n' was not linked" iff n is defined nowhere *)
+Theorem C17_required_value : forall env ext st n,
+  eval_raw env ext st ("DEFINED(" ++ n ++ ")") = Ok (b2z (is_some (sym_lookup n st env ext))).
+Proof. exact required_value. Qed.
+
+Theorem C17_required_link : forall env senv ext final st n,
+  (sym_lookup n st env ext = None ->
+   exec_top_stmt env senv ext final st (SAssert ("DEFINED(" ++ n ++ ")") (required_msg n)) =
+   add_err (LAssertFailed (required_msg n)) st) /\
+  (forall v, sym_lookup n st env ext = Some v ->
+   exec_top_stmt env senv ext final st (SAssert ("DEFINED(" ++ n ++ ")") (required_msg n)) = st).
+Proof. exact required_link. Qed.
+
+Theorem C17_required_iff : forall env senv ext final st n,
+  l_errors (exec_top_stmt env senv ext final st (SAssert ("DEFINED(" ++ n ++ ")") (required_msg n))) =
+  (l_errors st ++ [LAssertFailed (required_msg n)])%list <->
+  sym_lookup n st env ext = None.
+Proof. exact required_iff. Qed.
+
+Theorem C17_extern_noop : forall env senv ext final st n, exec_top_stmt env senv ext final st (SExtern n) = st.
+Proof. exact extern_noop. Qed.
+
+(* C17_gp_value: "_gp = . + 0x<offset as u32>" followed by "START = ." inside an output section placed
+   at [vma]: START is the current address, _gp is START + (offset mod 2^32), which is START + offset
+   modulo 2^32 - exact for offsets >= 0, 2^32 too large for negative ones (a 32-bit target wraps) *)
+Theorem C17_gp_value : forall env senv ext final vma sub name ss p h off START,
+  (p && is_some (lookup "_gp" ext))%bool = false -> START <> "_gp" ->
+  let ss' := fold_left (exec_sec_stmt env senv ext final vma sub name)
+                       [SAssign p h false "_gp" (EDotPlus off); linker_symbol START EDot] ss in
+  let here := vma + s_off ss in
+  s_off ss' = s_off ss /\
+  lookup START (l_syms (s_st ss')) = Some here /\
+  lookup "_gp" (l_syms (s_st ss')) = Some (here + off mod 4294967296) /\
+  (here + off mod 4294967296) mod 4294967296 = (here + off) mod 4294967296.
+Proof. exact gp_value. Qed.
+
+Theorem C17_gp_offset_image : forall off,
+  -2147483648 <= off < 2147483648 ->
+  off mod 4294967296 = if off <? 0 then off + 4294967296 else off.
+Proof. exact gp_offset_image. Qed.
+
+Theorem C17_section_start_not_gp : forall sty seg sec, segment_section_start sty seg sec <> "_gp".
+Proof. exact section_start_not_gp. Qed.
+
+(* PROVIDE(_gp = ...) does not override a _gp coming from the objects *)
+Theorem C17_gp_provided_elsewhere : forall env senv ext final vma sub name ss h off,
+  is_some (lookup "_gp" ext) = true ->
+  s_st (exec_sec_stmt env senv ext final vma sub name ss (SAssign true h false "_gp" (EDotPlus off))) = s_st ss.
+Proof. exact gp_provided_elsewhere. Qed.
+
+(* the hard-coded value is taken as it is *)
+Theorem C17_gp_hardcoded : forall env senv ext final st v,
+  lookup "_gp" (l_syms (exec_top_stmt env senv ext final st (SAssign false false false "_gp" (EHex8 v)))) =
+  Some (Z.of_N v).
+Proof. exact gp_hardcoded_value. Qed.
+
+(* the sample document: boot has gp_info {.sdata, 0x7FF0, PROVIDE}; in the layout _gp = boot_SDATA_START
+   + 0x7FF0 (the hard-coded value is overridden later in the script, as ld does); the assert
+   "boot_ROM_SIZE <= 0x1000" holds; without "main" among the objects the required-symbol assert fails *)
+Example ex_link_tail :
+  let st := layout ex_script ex_universe [("main", 5)] in
+  l_errors st = [] /\
+  val st "boot_SDATA_START" = Some 68 /\ val st "_gp" = Some (68 + 32752) /\
+  l_errors (layout ex_script ex_universe []) = [LAssertFailed (required_msg "main")].
+Proof. vm_compute. repeat split; reflexivity. Qed.
+
+Print Assumptions C17_assert_fails.
+Print Assumptions C17_assert_holds.
+Print Assumptions C17_assert_link.
+Print Assumptions C17_required_value.
+Print Assumptions C17_required_link.
+Print Assumptions C17_required_iff.
+Print Assumptions C17_extern_noop.
+Print Assumptions C17_gp_value.
+Print Assumptions C17_gp_offset_image.
+Print Assumptions C17_section_start_not_gp.
+Print Assumptions C17_gp_provided_elsewhere.
+Print Assumptions C17_gp_hardcoded.
